@@ -39,8 +39,8 @@ LABELS = [("A", "B"), ("O", "Ca_shell"), ("Mg_core1", "Mg_core2")]
 IntCore = common.IntCore
 
 
-def api_case(nr, npots, derivs, route, intcore=False):
-  res = new_result("api nr=%d npots=%d derivs=%s route=%s%s" % (nr, npots, derivs, route, " int-valued core" if intcore else ""))
+def api_case(nr, npots, derivs, route, intcore=False, after_failure=False):
+  res = new_result("api nr=%d npots=%d derivs=%s route=%s%s" % (nr, npots, derivs, route, " int-valued core" if intcore else "") + (" after failed writes of another table" if after_failure else ""))
   import atsim.potentials as ap
   from atsim.potentials import Potential
   from atsim.potentials.pair_tabulation import DLPoly_PairTabulation
@@ -56,6 +56,23 @@ def api_case(nr, npots, derivs, route, intcore=False):
       u0 = uf("U0", deriv=True)
       pots[0] = Potential(labels[0][0], labels[0][1], IntCore(u0, u0.deriv, thr))
     out = Sink()
+    if after_failure:
+      # another table of the same shape whose potential fails at its second (third, ...) evaluation was attempted first
+      for nfail in (1, 2, 3):
+        cnt = [0]
+
+        def doomed(r_, cnt=cnt, nfail=nfail):
+          cnt[0] += 1
+          if cnt[0] > nfail:
+            raise ArithmeticError("injected failure")
+          return 1.0
+        try:
+          if route == "class":
+            DLPoly_PairTabulation([Potential(labels[0][0], labels[0][1], doomed)], cutoff, nr).write(Sink())
+          else:
+            ap.writePotentials("DL_POLY", [Potential(labels[0][0], labels[0][1], doomed)], cutoff, nr, Sink())
+        except ArithmeticError:
+          pass
     core.INT_TAGS = intcore
     try:
       second = None
@@ -123,7 +140,7 @@ def api_case(nr, npots, derivs, route, intcore=False):
   def replay(v, w, path, structural):
     if intcore:
       return common.replay_pair_intcore("DL_POLY", nr, npots, derivs, labels, w, route)
-    return common.replay_pair_table("DL_POLY", nr, npots, derivs, labels, w, route)
+    return common.replay_pair_table("DL_POLY", nr, npots, derivs, labels, w, route, after_failure=after_failure)
 
   explore_and_check(res, fn, build, replay=replay, negative=lambda p: build(p, wrong=True))
   res["nontrivial"] = res["vcs"]
@@ -348,6 +365,8 @@ def cases(tier, seed=0):
   for npots, route in ((1, "class"), (2, "writePotentials")) if tier == "quick" else ((1, "class"), (1, "writePotentials"), (2, "class"), (2, "writePotentials")):
     for nr in ((8,) if tier == "quick" else (8, 12)):
       cs.append(Case("api int-valued core nr=%d n=%d %s" % (nr, npots, route), api_case, nr=nr, npots=npots, derivs=(True,) * npots, route=route, intcore=True))
+  for route in ("class", "writePotentials"):
+    cs.append(Case("api nr=8 n=2 after failed writes %s" % route, api_case, nr=8, npots=2, derivs=(True, False), route=route, after_failure=True))
   for npots in (1, 2):
     cs.append(Case("rejection api n=%d" % npots, rejection_case, npots=npots, via="api"))
   cs.append(Case("rejection factory", rejection_case, npots=1, via="factory"))
